@@ -28,7 +28,7 @@ def undeclared_errors(res):
 
 
 def engine_case_strategy(max_tasks=8, feats=None, max_devs=6, reverse_p=0.2,
-                         flip_input=True):
+                         flip_input=True, joinshape_p=0.3):
     """Hypothesis strategy producing a JSON-serialisable engine case."""
     from hypothesis import strategies as st
     from mv.gen import workflows as G
@@ -40,6 +40,8 @@ def engine_case_strategy(max_tasks=8, feats=None, max_devs=6, reverse_p=0.2,
         D = HDraw(draw)
         if D.bool(reverse_p):
             prog, outc = G.gen_reverse(D, feats, max_tasks)
+        elif D.bool(joinshape_p):
+            prog, outc = G.gen_joinshape(D, feats)
         else:
             prog, outc = G.gen_direct(D, feats, max_tasks)
         wf_input = {}
